@@ -22,8 +22,8 @@ import (
 	"github.com/jimsnab/go-redisemu/verifrt"
 )
 
-// Call is one command issued by a scenario thread, with the global step numbers of its
-// invocation and response (real-time order).
+// Call is one command issued by a scenario thread, with the positions of its invocation and
+// response in the total order of such events (real-time order).
 type Call struct {
 	Thread int
 	Args   []string
@@ -42,17 +42,29 @@ type Exec struct {
 	Notes    []string
 	Final    string // canonical dump of the observable state at quiescence
 	Finished bool   // the scenario body ran to its end
+	events   int    // invocation / response events so far: one thread runs at a time, so the
+	// counter is the exact real-time order of those events
 	Extra    map[string]any
 }
+
+var historyObj struct{ _ int }
 
 func (x *Exec) note(f string, a ...any) { x.Notes = append(x.Notes, fmt.Sprintf(f, a...)) }
 
 // do issues a command on behalf of the calling thread and records it.
 func (x *Exec) do(thread int, cl *redisemu.VClient, args ...string) vm.Reply {
-	c := &Call{Thread: thread, Args: args, Inv: x.Sched.Step, Ret: -1, TInv: verifrt.Now().UnixMilli()}
+	// the invocation and the response of a call are scheduling points on one common object:
+	// another thread may run between a response and the next invocation, and the relative
+	// order of these events (the real-time order the linearizability oracle judges) is part
+	// of what distinguishes two schedules under the partial-order reduction
+	verifrt.Point(verifrt.OpAtomic, &historyObj, nil)
+	x.events++
+	c := &Call{Thread: thread, Args: args, Inv: x.events, Ret: -1, TInv: verifrt.Now().UnixMilli()}
 	x.Calls = append(x.Calls, c)
 	raw := cl.Do(args...)
-	c.Ret = x.Sched.Step
+	verifrt.Point(verifrt.OpAtomic, &historyObj, nil)
+	x.events++
+	c.Ret = x.events
 	c.TRet = verifrt.Now().UnixMilli()
 	c.Raw = string(raw)
 	r, err := vm.Parse1(raw)
@@ -120,24 +132,39 @@ type Scenario struct {
 	// Horizon overrides the step budget.
 	Horizon   int
 	TimerAlts bool
+	// TimerAltBudget: see Sched.TimerAltBudget
+	TimerAltBudget int
 	// MapOrder: the scenario runs a command that walks a Go map of connections (CLIENT LIST,
 	// CLIENT KILL) while taking locks per entry; Go randomises that order, so a recorded prefix
 	// may not be replayable. Such prefixes are retried and, if still unreproducible, skipped and
 	// counted (never reported as a violation); everywhere else a divergence is a harness error.
 	MapOrder bool
+	// BoundedOnly: too large for the unbounded pass (left to the preemption-bounded exploration)
+	BoundedOnly bool
 }
 
 // runSchedule executes the scenario under the schedule described by prefix.
 func runSchedule(sc *Scenario, prefix []int, trace bool) *Exec {
+	return runScheduleEx(sc, prefix, trace, false, nil)
+}
+
+// runScheduleEx: with por, the scheduler keeps sleep sets (see exploreFromPOR).
+func runScheduleEx(sc *Scenario, prefix []int, trace bool, por bool, sleepAdd map[int][]int) *Exec {
 	redisemu.VResetGlobals()
 	x := &Exec{Extra: map[string]any{}}
 	s := verifrt.NewSched(prefix)
+	s.POR = por
+	s.SleepAdd = sleepAdd
+	if por {
+		s.Hint = append([]int{}, dporHint...)
+	}
 	if sc.Horizon > 0 {
 		s.Horizon = sc.Horizon
 	} else {
 		s.Horizon = 20000
 	}
 	s.TimerAlts = sc.TimerAlts
+	s.TimerAltBudget = sc.TimerAltBudget
 	s.TraceOn = trace
 	x.Sched = s
 	s.Run(func() {
@@ -175,6 +202,7 @@ type exploreStats struct {
 	PerBound    map[int]int    `json:"per_bound"`
 	Violations  []exploreViol  `json:"violations"`
 	TimedOut    bool           `json:"timed_out"`
+	SleepBlocked int           `json:"sleep_blocked"`
 }
 
 type exploreViol struct {
@@ -209,9 +237,23 @@ func (st *exploreStats) merge(o *exploreStats) {
 	}
 	st.Violations = append(st.Violations, o.Violations...)
 	st.TimedOut = st.TimedOut || o.TimedOut
+	st.SleepBlocked += o.SleepBlocked
 }
 
+var dumpOutcome = os.Getenv("VERIF_DUMP_OUTCOME")
+var noSleepSets = os.Getenv("VERIF_NO_SLEEP") != ""
+var outcomeStrings = map[string]int{}
+var showOutcomes = os.Getenv("VERIF_SHOW_OUTCOMES") != ""
+
 func outcomeOf(x *Exec) string {
+	s := outcomeOf0(x)
+	if showOutcomes {
+		outcomeStrings[s]++
+	}
+	return s
+}
+
+func outcomeOf0(x *Exec) string {
 	var sb strings.Builder
 	for _, c := range x.Calls {
 		if c.Ret < 0 {
@@ -221,8 +263,23 @@ func outcomeOf(x *Exec) string {
 		}
 	}
 	sb.WriteString("|" + x.Final)
+	if outcomeWithRealTimeOrder {
+		// which calls returned before which other calls were invoked (what the linearizability
+		// oracle sees of the schedule)
+		for i, a := range x.Calls {
+			for j, b := range x.Calls {
+				if i != j && a.Ret >= 0 && a.Ret < b.Inv {
+					fmt.Fprintf(&sb, "|%d<%d", i, j)
+				}
+			}
+		}
+		sb.WriteString("|term:" + x.Sched.Term.String())
+	}
 	return sb.String()
 }
+
+// outcomeWithRealTimeOrder is switched on by the self-test of the reduction (mc porcheck)
+var outcomeWithRealTimeOrder bool
 
 // exploreFrom explores the subtree below prefix (the execution of prefix itself included).
 func exploreFrom(sc *Scenario, root []int, bound int, deadline time.Time, st *exploreStats) {
@@ -301,6 +358,369 @@ func exploreFrom(sc *Scenario, root []int, bound int, deadline time.Time, st *ex
 	}
 }
 
+// ---- unbounded exploration with dynamic partial-order reduction --------------------------------
+//
+// Every thread schedule is explored (no preemption bound) up to the order of commuting steps.
+// After each execution the races in it are computed: pairs of steps of different threads that do
+// not commute (they use a common synchronisation object, one of them has a global effect, or one
+// changes whether/how the other's pending operation is enabled) and are adjacent in the
+// happens-before order. For each race the reversed order is scheduled at the decision point that
+// chose the earlier step (source-set DPOR, Abdulla et al. 2014); sleep sets avoid exploring an
+// order twice. Value choices (which ready case a select takes) and timer alternatives are always
+// explored completely. The set-up and observation phases of a scenario (Serial) have one fixed
+// schedule and take no part.
+
+type dFrame struct {
+	alts      []int // thread ids (>= 0), -(timer+1); nil for a value choice
+	n         int
+	chosen    int
+	backtrack map[int]bool // alternative indices to explore
+	done      map[int]bool
+	sleepAdd  []int // thread ids put to sleep at this point for the current choice
+	asleep    map[int]bool // thread ids that arrived asleep at this point (inherited from earlier points)
+	hints     map[int][]int // per alternative: the thread order that realises the reversal it was added for
+}
+
+var dporHint []int
+
+type dporState struct {
+	sc     *Scenario
+	frames []*dFrame
+}
+
+func (d *dporState) prefix() ([]int, map[int][]int) {
+	p := make([]int, len(d.frames))
+	sa := map[int][]int{}
+	for i, f := range d.frames {
+		p[i] = f.chosen
+		if len(f.sleepAdd) > 0 {
+			sa[i] = f.sleepAdd
+		}
+	}
+	return p, sa
+}
+
+// addRaces analyses the executed step sequence and extends the backtrack sets.
+func (d *dporState) addRaces(s *verifrt.Sched) {
+	T := s.Steps
+	m := len(T)
+	if m == 0 {
+		return
+	}
+	li := make([]int, m)
+	count := map[int]int{}
+	for k := range T {
+		li[k] = count[T[k].Tid]
+		count[T[k].Tid]++
+	}
+	nextOf := make([]map[int]bool, m) // nextOf[i][tid]: has tid already stepped after i (up to the j under consideration)
+	dep := func(i, j int) bool { // i < j
+		a, b := &T[i], &T[j]
+		if a.All || b.All {
+			return true
+		}
+		for _, o := range a.Objs {
+			for _, q := range b.Objs {
+				if verifrt.Conflict(o, q) {
+					return true
+				}
+			}
+		}
+		for _, t := range a.Changed {
+			if t == b.Tid {
+				// only the first step of that thread after i is the operation whose enabledness changed
+				first := true
+				for k := i + 1; k < j; k++ {
+					if T[k].Tid == b.Tid {
+						first = false
+						break
+					}
+				}
+				if first {
+					return true
+				}
+			}
+		}
+		return false
+	}
+	_ = nextOf
+	// vector clocks
+	vc := make([]map[int]int, m)
+	last := map[int]int{} // tid -> last step index
+	depList := make([][]int, m)
+	for j := 0; j < m; j++ {
+		c := map[int]int{}
+		if p, ok := last[T[j].Tid]; ok {
+			for k, v := range vc[p] {
+				c[k] = v
+			}
+		}
+		for i := 0; i < j; i++ {
+			if T[i].Tid != T[j].Tid && dep(i, j) {
+				depList[j] = append(depList[j], i)
+				for k, v := range vc[i] {
+					if v > c[k] {
+						c[k] = v
+					}
+				}
+			}
+		}
+		c[T[j].Tid] = li[j] + 1
+		vc[j] = c
+		last[T[j].Tid] = j
+	}
+	hb := func(i, j int) bool { return i == j || (i < j && vc[j][T[i].Tid] >= li[i]+1) }
+	for j := 0; j < m; j++ {
+		for _, i := range depList[j] {
+			pt := T[i].Point
+			if pt < 0 || pt >= len(d.frames) || d.frames[pt].alts == nil {
+				continue
+			}
+			// a step that only becomes possible through step i cannot be moved before it
+			enabledByI := false
+			for _, t := range T[i].Enabled {
+				if t == T[j].Tid {
+					enabledByI = true
+					for k := i + 1; k < j; k++ {
+						if T[k].Tid == T[j].Tid {
+							enabledByI = false
+							break
+						}
+					}
+				}
+			}
+			if enabledByI {
+				continue
+			}
+			// adjacent in happens-before?
+			adjacent := true
+			for k := i + 1; k < j; k++ {
+				if hb(i, k) && hb(k, j) {
+					adjacent = false
+					break
+				}
+			}
+			if !adjacent {
+				continue
+			}
+			// the steps after i that do not happen after i, then j: their initials may run first
+			var v []int
+			for k := i + 1; k < j; k++ {
+				if !hb(i, k) {
+					v = append(v, k)
+				}
+			}
+			v = append(v, j)
+			f := d.frames[pt]
+			found := false
+			var candidates []int
+			for x, k := range v {
+				initial := true
+				for _, k2 := range v[:x] {
+					if hb(k2, k) {
+						initial = false
+						break
+					}
+				}
+				if !initial {
+					continue
+				}
+				for ai, tid := range f.alts {
+					if tid == T[k].Tid {
+						if f.backtrack[ai] {
+							found = true
+						}
+						candidates = append(candidates, ai)
+					}
+				}
+			}
+			if found {
+				continue
+			}
+			if len(candidates) > 0 {
+				c := candidates[0]
+				f.backtrack[c] = true
+				// the rest of v, in order, is the continuation that realises the reversal
+				var hint []int
+				skipped := false
+				for _, k := range v {
+					if !skipped && T[k].Tid == f.alts[c] {
+						skipped = true
+						continue
+					}
+					hint = append(hint, T[k].Tid)
+				}
+				if f.hints == nil {
+					f.hints = map[int][]int{}
+				}
+				f.hints[c] = hint
+			} else {
+				for ai := range f.alts {
+					f.backtrack[ai] = true
+				}
+			}
+		}
+	}
+}
+
+func exploreDPOR(sc *Scenario, deadline time.Time, st *exploreStats) {
+	d := &dporState{sc: sc}
+	seenViol := map[string]bool{}
+	first := true
+	for {
+		if time.Now().After(deadline) {
+			st.TimedOut = true
+			return
+		}
+		if !first {
+			// deepest frame with something left to explore
+			k := len(d.frames) - 1
+			next := -1
+			for ; k >= 0; k-- {
+				f := d.frames[k]
+				for ai := 0; ai < f.n; ai++ {
+					if f.alts != nil && f.asleep[f.alts[ai]] {
+						continue // covered by an earlier branch
+					}
+					if f.backtrack[ai] && !f.done[ai] {
+						next = ai
+						break
+					}
+				}
+				if next >= 0 {
+					break
+				}
+			}
+			if k < 0 {
+				return
+			}
+			f := d.frames[k]
+			// the alternatives explored before go to sleep in this branch
+			f.sleepAdd = f.sleepAdd[:0]
+			for ai := range f.done {
+				if f.alts != nil && f.alts[ai] >= 0 {
+					f.sleepAdd = append(f.sleepAdd, f.alts[ai])
+				}
+			}
+			sort.Ints(f.sleepAdd)
+			if noSleepSets {
+				f.sleepAdd = f.sleepAdd[:0]
+			}
+			f.chosen = next
+			f.done[next] = true
+			d.frames = d.frames[:k+1]
+		}
+		first = false
+		prefix, sa := d.prefix()
+		var hint []int
+		if n := len(d.frames); n > 0 {
+			hint = d.frames[n-1].hints[d.frames[n-1].chosen]
+		}
+		dporHint = hint
+		x := runScheduleEx(sc, prefix, false, true, sa)
+		atomic.AddInt64(&execCounter, 1)
+		if sc.MapOrder {
+			for try := 0; try < 40 && x.Sched.Divergence != ""; try++ {
+				x = runScheduleEx(sc, prefix, false, true, sa)
+			}
+			dporHint = nil
+			if x.Sched.Divergence != "" {
+				st.Unreproducible++
+				continue
+			}
+		}
+		s := x.Sched
+		st.Points += len(s.Points)
+		if len(s.Points) > st.MaxPoints {
+			st.MaxPoints = len(s.Points)
+		}
+		if s.Divergence != "" {
+			st.Diverged++
+			st.Violations = append(st.Violations, exploreViol{Sig: "HARNESS|replay-divergence", Detail: s.Divergence, Choices: prefix, Scenario: sc.Name})
+			continue
+		}
+		// frames for the decision points beyond the prefix
+		for i := len(d.frames); i < len(s.Points); i++ {
+			p := s.Points[i]
+			f := &dFrame{alts: p.Alts, n: p.N, chosen: s.Choices[i], backtrack: map[int]bool{s.Choices[i]: true}, done: map[int]bool{s.Choices[i]: true}, asleep: map[int]bool{}}
+			for _, t := range p.Sleep {
+				f.asleep[t] = true
+			}
+			if p.Alts == nil {
+				for ai := 0; ai < p.N; ai++ {
+					f.backtrack[ai] = true
+				}
+			} else {
+				for ai, tid := range p.Alts {
+					if tid < 0 {
+						f.backtrack[ai] = true // a timer firing here: always explored
+					}
+				}
+			}
+			d.frames = append(d.frames, f)
+		}
+		d.addRaces(s)
+		if os.Getenv("VERIF_DPOR_TRACE") != "" {
+			var bt []string
+			for i, f := range d.frames {
+				var b []int
+				for ai := range f.backtrack {
+					if !f.done[ai] {
+						b = append(b, ai)
+					}
+				}
+				if len(b) > 0 {
+					bt = append(bt, fmt.Sprintf("%d:%v", i, b))
+				}
+			}
+			sl := ""
+			for i, p := range s.Points {
+				if len(p.Sleep) > 0 {
+					sl += fmt.Sprintf(" %d:%v", i, p.Sleep)
+				}
+			}
+			fmt.Fprintf(os.Stderr, "RUN prefix=%d choices=%v blocked=%v outcome=%s pendingBacktrack=%v sleepAt=%s\n", len(prefix), s.Choices, s.SleepBlocked, x.Final, bt, sl)
+		}
+		if s.SleepBlocked {
+			st.SleepBlocked++
+			continue
+		}
+		st.Execs++
+		st.Terminals[s.Term.String()]++
+		if s.Term == verifrt.TermHorizon {
+			st.Horizon++
+		}
+		st.Outcomes[shortHash(outcomeOf(x))]++
+		if dumpOutcome != "" && strings.Contains(outcomeOf0(x), dumpOutcome) {
+			dumpOutcome = ""
+			fmt.Fprintf(os.Stderr, "DUMP choices %v\n", s.Choices)
+			for k, r := range s.Steps {
+				var ids []int
+				for _, o := range r.Objs {
+					ids = append(ids, s.ObjIDOf(o))
+				}
+				fmt.Fprintf(os.Stderr, "  step %3d thread %2d point %3d objs %v all=%v changed=%v\n", k, r.Tid, r.Point, ids, r.All, r.Changed)
+			}
+			for i, p := range s.Points {
+				fmt.Fprintf(os.Stderr, "  point %3d alts %v chosen %d sleep %v\n", i, p.Alts, s.Choices[i], p.Sleep)
+			}
+		}
+		for _, v := range checkExec(sc, x) {
+			if seenViol[v[0]] {
+				continue
+			}
+			seenViol[v[0]] = true
+			// the recorded choices reproduce the execution without the reduction
+			y := runSchedule(sc, s.Choices, true)
+			if outcomeOf(y) != outcomeOf(x) {
+				st.Violations = append(st.Violations, exploreViol{Sig: "HARNESS|nondeterministic-replay", Detail: "replaying the failing schedule gave a different outcome: " + v[0], Choices: s.Choices, Scenario: sc.Name})
+				continue
+			}
+			st.Violations = append(st.Violations, exploreViol{Sig: v[0], Detail: v[1], Choices: append([]int{}, s.Choices...), Trace: describe(y), Scenario: sc.Name})
+		}
+	}
+}
+
 func checkExec(sc *Scenario, x *Exec) [][2]string {
 	var out [][2]string
 	s := x.Sched
@@ -322,7 +742,7 @@ func describe(x *Exec) []string {
 		if c.Ret >= 0 {
 			r = c.Reply.String()
 		}
-		out = append(out, fmt.Sprintf("thread %d: %s  [steps %d..%d] => %s", c.Thread, strings.Join(c.Args, " "), c.Inv, c.Ret, r))
+		out = append(out, fmt.Sprintf("thread %d: %s  [events %d..%d] => %s", c.Thread, strings.Join(c.Args, " "), c.Inv, c.Ret, r))
 	}
 	out = append(out, x.Notes...)
 	out = append(out, "final: "+x.Final)
@@ -350,8 +770,9 @@ func shortHash(s string) string {
 type exploreTask struct {
 	Scenario int   `json:"s"`
 	Prefix   []int `json:"p"`
-	Bound    int   `json:"b"`
+	Bound    int   `json:"b"` // preemption bound; < 0: unbounded with sleep-set reduction
 	Budget   int   `json:"t"` // seconds
+	SleepAdd map[int][]int `json:"z,omitempty"`
 }
 
 var workerBusy int64
@@ -392,7 +813,11 @@ func exploreWorker(scenarios []*Scenario) {
 		st := newStats()
 		currentScenario = scenarios[t.Scenario].Name
 		atomic.StoreInt64(&workerBusy, 1)
-		exploreFrom(scenarios[t.Scenario], t.Prefix, t.Bound, time.Now().Add(time.Duration(t.Budget)*time.Second), st)
+		if t.Bound < 0 {
+			exploreDPOR(scenarios[t.Scenario], time.Now().Add(time.Duration(t.Budget)*time.Second), st)
+		} else {
+			exploreFrom(scenarios[t.Scenario], t.Prefix, t.Bound, time.Now().Add(time.Duration(t.Budget)*time.Second), st)
+		}
 		atomic.StoreInt64(&workerBusy, 0)
 		enc.Encode(st)
 		w.Flush()
@@ -401,13 +826,31 @@ func exploreWorker(scenarios []*Scenario) {
 
 // runExplore explores every scenario up to the preemption bound on the worker pool.
 func runExplore(propID, group string, scenarios []*Scenario, bound int, tier string, rep *Report) {
+	runExploreSel(propID, group, scenarios, bound, tier, rep, nil)
+}
+
+// runExploreSel: only the scenarios accepted by sel (nil: all) are explored; scenarios is always the
+// complete list of the group, because the workers address scenarios by their index in it.
+func runExploreSel(propID, group string, scenarios []*Scenario, bound int, tier string, rep *Report, sel func(*Scenario) bool) {
 	redisemu.VInit()
 	total := newStats()
 	perScenario := map[string]map[string]int{}
+	notFinished := map[string]bool{}
 	var tasks []exploreTask
 	deadline := time.Now().Add(tierBudget(tier))
 	// split: expand the root of every scenario by one level so that there is enough parallelism
+	selected := 0
 	for si, sc := range scenarios {
+		if sel != nil && !sel(sc) {
+			continue
+		}
+		selected++
+		if bound < 0 {
+			// unbounded with partial-order reduction: one task per scenario (the backtrack sets of a
+			// scenario are one data structure)
+			tasks = append(tasks, exploreTask{Scenario: si, Bound: -1})
+			continue
+		}
 		x := runSchedule(sc, nil, false)
 		s := x.Sched
 		if len(scenarios) >= 3*numWorkers() || len(s.Points) == 0 {
@@ -427,6 +870,10 @@ func runExplore(propID, group string, scenarios []*Scenario, bound int, tier str
 			}
 			cost += costOf(p, s.Choices[i])
 		}
+	}
+	slice := int(tierBudget(tier).Seconds()) * numWorkers() / (len(tasks) + 1)
+	if min := int(tierBudget(tier).Seconds()) / 4; slice < min {
+		slice = min
 	}
 	taskCh := make(chan exploreTask, len(tasks))
 	for _, t := range tasks {
@@ -451,8 +898,13 @@ func runExplore(propID, group string, scenarios []*Scenario, bound int, tier str
 				if left <= 0 {
 					mu.Lock()
 					total.TimedOut = true
+					notFinished[scenarios[t.Scenario].Name] = true
 					mu.Unlock()
 					continue
+				}
+				// fair shares: one heavy scenario must not starve the others
+				if left > slice {
+					left = slice
 				}
 				t.Budget = left
 				js, _ := json.Marshal(t)
@@ -473,10 +925,14 @@ func runExplore(propID, group string, scenarios []*Scenario, bound int, tier str
 				}
 				total.merge(st)
 				name := scenarios[t.Scenario].Name
+				if st.TimedOut {
+					notFinished[name] = true
+				}
 				if perScenario[name] == nil {
 					perScenario[name] = map[string]int{}
 				}
 				perScenario[name]["schedules"] += st.Execs
+				perScenario[name]["cut"] += st.SleepBlocked
 				perScenario[name]["outcomes"] = len(st.Outcomes) + perScenario[name]["outcomes"]
 				mu.Unlock()
 			}
@@ -502,12 +958,33 @@ func runExplore(propID, group string, scenarios []*Scenario, bound int, tier str
 	addCov("transitions", total.Points)
 	addCov("traces_validated_against_impl", total.Execs)
 	addCov("schedules", total.Execs)
-	addCov("scenarios", len(scenarios))
+	addCov("scenarios", selected)
 	addCov("distinct_outcomes", len(total.Outcomes))
 	addCov("horizon_hits", total.Horizon)
 	addCov("replay_divergences", total.Diverged)
 	addCov("prefixes_skipped_map_iteration_order", total.Unreproducible)
 	rep.Coverage["preemption_bound_"+group] = bound
+	if bound < 0 {
+		delete(rep.Coverage, "preemption_bound_"+group)
+		group += "_unbounded"
+		rep.Coverage["mode_"+group] = "no preemption bound; sleep-set partial-order reduction (schedules that differ only in the order of commuting steps are explored once)"
+		addCov("executions_cut_by_sleep_sets", total.SleepBlocked)
+	}
+	{
+		ps := map[string]any{}
+		for n, m := range perScenario {
+			ps[n] = map[string]int{"schedules": m["schedules"], "cut_by_sleep_sets": m["cut"]}
+		}
+		rep.Coverage["per_scenario_"+group] = ps
+	}
+	if len(notFinished) > 0 {
+		var names []string
+		for n := range notFinished {
+			names = append(names, n)
+		}
+		sort.Strings(names)
+		rep.Coverage["scenarios_not_finished_"+group] = names
+	}
 	pb := map[string]int{}
 	for k, v := range total.PerBound {
 		pb[itoa(k)] = v
